@@ -8,7 +8,7 @@ EXPLANATION = ("Static rules over quinn-proto/quinn MIR: (a) ConnectionIndex::re
                "only) -> 4-tuple maps (empty DCID only) -> reset tokens; (e) CID life-cycle agreement: every issued CID is recorded in loc_cids under the sequence number "
                "announced to the peer (add_connection: 0 and 1; send_new_identifiers: cids_issued before increment) and in the routing index; retirement removes from "
                "both with the removed value; the connection emits RetireConnectionId only past on_cid_retirement's Ok edge; (f) async endpoint: senders map insert/remove "
-               "sites and event routing by the handle returned from proto. Stale mappings across arbitrary histories (relational invariant) are NOT decided.")
+               "sites and event routing by the handle returned from proto; (g) tables whose insert overwrites (4-tuple / remote maps used with zero-length CIDs) are purged in ConnectionIndex::remove only under `table.get(key) == Some(ch)`. Stale mappings across arbitrary histories (relational invariant) are NOT decided.")
 RULE = "rule instances = (rule, site) pairs over MIR stores / call sites / table fields; non-trivial = bound to a real site"
 CI = 'endpoint::ConnectionIndex'
 
@@ -31,6 +31,37 @@ def rule_a(ctx):
     it = [c for c in rem.calls() if c.is_('HashMap::values') and D.has_field(arg_desc(F, c, 0), 'loc_cids')]
     rm = [c for c in rem.calls_to('HashMap::remove') if D.has_field(arg_desc(F, c, 0), 'connection_ids')]
     ctx.check(bool(it) and bool(rm), 'a', 'remove_purges_every_issued_cid', rem, rem.where(), 'for cid in loc_cids.values() { connection_ids.remove(cid) }', 'not every issued CID is purged from the routing map')
+
+
+def rule_g(ctx):
+    """a routing table whose insert overwrites (the key is not exclusively owned by one connection: the 4-tuple /
+    remote address with zero-length CIDs) may have been taken over by a newer connection; tearing down the old
+    one must only delete an entry that still leads to it."""
+    F = ctx.facts
+    rem = ctx.pfn('ConnectionIndex::remove')
+    ic = ctx.pfn('ConnectionIndex::insert_conn')
+    n = 0
+    for tbl in ('incoming_connection_remotes', 'outgoing_connection_remotes'):
+        ins = [c for c in ic.calls_to('HashMap::insert') if D.has_field(arg_desc(F, c, 0), tbl)]
+        # overwriting insert = its Option result is not inspected (no branch, no call consumes it)
+        overwriting = []
+        for c in ins:
+            used = any(contains_site(br.desc, c) for br in branches(F, ic)) or any(contains_site(arg_desc(F, x, i), c) for x in ic.calls() for i in range(len(x.args)) if x.bb != c.bb)
+            if not used:
+                overwriting.append(c)
+        ctx.info('g', 'table %s: %d insert site(s), %d overwriting' % (tbl, len(ins), len(overwriting)))
+        rms = [c for c in rem.calls_to('HashMap::remove') if D.has_field(arg_desc(F, c, 0), tbl)]
+        ctx.floor('g', 'remove_sites_' + tbl, len(rms), 1)
+        if not overwriting:
+            continue
+        n += 1
+
+        def rel(o, a, b, tbl=tbl):
+            # violating: table.get(key) != Some(ch)
+            x, y = (a, b) if D.has_call(a, 'HashMap::get') else (b, a)
+            return o == 'Ne' and D.has_call(x, 'HashMap::get') and D.has_field(x, tbl) and D.has_param(y, name='ch')
+        guard_protects(ctx, 'g', 'shared_route_removed_only_if_still_owned/' + tbl, rem, rel, [c.bb for c in rms], what='%s.get(key) != Some(ch)' % tbl)
+    ctx.floor('g', 'overwritable_tables', n, 2)
 
 
 def rule_b(ctx):
@@ -175,6 +206,11 @@ def rule_f(ctx):
 
 
 def run(ctx):
+    from rules.shared_rules import incoming_slot_route_paired
+    from rules.shared_rules import cid_replacement_only_for_retired
+    cid_replacement_only_for_retired(ctx, 'e', 'cid_replacement_only_for_retired_cid')
+    incoming_slot_route_paired(ctx, 'h', 'incoming_slot_freed_with_its_route')
+    rule_g(ctx)
     rule_a(ctx)
     rule_b(ctx)
     rule_c(ctx)
